@@ -39,6 +39,17 @@ pub fn op_classes(c: &Case) -> Vec<String> {
   v
 }
 
+/// Is the case small by the reference interpreter's count (so that a step / fuel budget
+/// hit on the crate means a runaway, not a legitimately long run)? None = the reference
+/// does not support the pipeline.
+pub fn small_by_reference(c: &SeqCase) -> Option<bool> {
+  match crate::model::run_model(&c.case, crate::model::Conv::all()[0]) {
+    Ok(m) => Some(m.fuel_used <= 1_500),
+    Err(crate::model::ModelErr::Unbounded) => Some(false),
+    Err(crate::model::ModelErr::Unsupported(_)) => None,
+  }
+}
+
 /// first violation of `next* (error|complete)?` in a recorder history
 pub fn contract_violation(evs: &[RecEv]) -> Option<String> {
   let mut term: Option<usize> = None;
@@ -310,6 +321,11 @@ fn c06_check(_ctx: &Ctx, c: &SeqCase) -> Report {
   use arx_rt::Kind::*;
   match r.outcome.kind {
     FuelExhausted | StepBudget => {
+      if small_by_reference(c) == Some(false) {
+        // legitimately long (e.g. nested flat_maps multiplying their inputs)
+        rep.classes.push("large-case(budget not judged)".into());
+        return rep;
+      }
       rep.fail = Some(format!(
         "a producer kept running ({:?}) although every bounded pipeline must stop | {}",
         r.outcome.kind,
@@ -495,4 +511,62 @@ pub fn properties() -> Vec<Property> {
       subs: vec![mk_sub("seq", (1500, 30_000), |ctx| seq_strategy(c17_cfg(ctx)), c17_check)],
     },
   ]
+}
+
+/// Entry point of the coverage-guided tier (fuzz/fuzz_targets/seq.rs): run the sequential
+/// oracles selected by `props` on one decoded case; Some((property, sub-check, message)) on
+/// the first violation.
+pub fn fuzz_oracles(ctx: &Ctx, c: &SeqCase, props: &[String]) -> Option<(String, String, String)> {
+  // coverage guidance loves large inputs; cases that are large by the reference's own count
+  // (nested flat_maps multiplying their inputs) are not run at all
+  if small_by_reference(c) == Some(false) {
+    return None;
+  }
+  let want = |p: &str| props.is_empty() || props.iter().any(|x| x == p);
+  let run = |p: &str, sub: &str, rep: Report| -> Option<(String, String, String)> {
+    rep.fail.map(|m| (p.to_string(), sub.to_string(), m))
+  };
+  if c.case.hot_illformed {
+    if want("C01") {
+      return run("C01", if c.case.hots.is_empty() { "cold" } else { "hot" }, c01_check(ctx, c));
+    }
+    return None;
+  }
+  if want("C01") {
+    if let Some(x) = run("C01", "hot", c01_check(ctx, c)) {
+      return Some(x);
+    }
+  }
+  if want("C05") {
+    if let Some(x) = run("C05", "seq", c05_check(ctx, c)) {
+      return Some(x);
+    }
+  }
+  if want("C06") {
+    if let Some(x) = run("C06", "root", c06_check(ctx, c)) {
+      return Some(x);
+    }
+    if let Some(x) = run("C06", "inner", super::diff::c06_inner_check(ctx, c)) {
+      return Some(x);
+    }
+  }
+  if want("C17") {
+    if let Some(x) = run("C17", "seq", c17_check(ctx, c)) {
+      return Some(x);
+    }
+  }
+  let has_reaction_other_than_subscribe =
+    c.case.recorders.iter().flatten().any(|r| !matches!(r.what, React::Subscribe(_)));
+  if want("C03") && !has_reaction_other_than_subscribe {
+    // trace equality with the reference (covers the C02 / C03 / C04 operator families)
+    if let Some(x) = run("C03", "combine", super::diff::c03_check(ctx, c)) {
+      return Some(x);
+    }
+  }
+  if want("C14") && !has_reaction_other_than_subscribe && c.case.recorders.len() >= 2 {
+    if let Some(x) = run("C14", "resubscribe", super::diff::c14_check(ctx, c)) {
+      return Some(x);
+    }
+  }
+  None
 }
